@@ -131,124 +131,27 @@ theorem matches_accepts {pi tiny : ℝ} (htiny : 0 < tiny) {sh : Shape ℝ} {tp 
 
 /-! ### `init_` -/
 
-/-- hypotheses of `wrap_preserves_values` on the initial value of a parameter: accepted by its
-constraint, more than `tiny` away from an open bound (the bounds are moved inwards by `tiny`),
-and a finite interval wider than `2 tiny` -/
-def Admits (tiny : ℝ) : Shape ℝ → ℝ → Prop
-  | .none, _ => True
-  | .cc a b, v => a ≤ v ∧ v ≤ b ∧ 2 * tiny < b - a
-  | .oo a b, v => a + tiny < v ∧ v < b - tiny
-  | .co a b, v => a ≤ v ∧ v < b - tiny ∧ 2 * tiny < b - a
-  | .oc a b, v => a + tiny < v ∧ v ≤ b ∧ 2 * tiny < b - a
-  | .gt a, v => a + tiny < v
-  | .ge a, v => a ≤ v
-  | .lt b, v => v < b - tiny
-  | .le b, v => v ≤ b
+/-- a finite interval is wide enough for the corrected bounds and the corrected values to be
+ordered: wider than `2 tiny` (`3 tiny` when both bounds are open) -/
+def Shape.Roomy (tiny : ℝ) : Shape ℝ → Prop
+  | .cc a b => 2 * tiny < b - a
+  | .oo a b => 3 * tiny < b - a
+  | .co a b => 2 * tiny < b - a
+  | .oc a b => 2 * tiny < b - a
+  | _ => True
 
-theorem admits_accepts {tiny : ℝ} (ht : 0 < tiny) {sh : Shape ℝ} {v : ℝ} (h : Admits tiny sh v) :
-    sh.Accepts v := by
-  cases sh with
-  | none => trivial
-  | cc a b => exact ⟨h.1, h.2.1⟩
-  | oo a b => exact ⟨by linarith [h.1], by linarith [h.2]⟩
-  | co a b => exact ⟨h.1, by linarith [h.2.1]⟩
-  | oc a b => exact ⟨by linarith [h.1], h.2.1⟩
-  | gt a => have h' : a + tiny < v := h; show a < v; linarith
-  | ge a => exact h
-  | lt b => have h' : v < b - tiny := h; show v < b; linarith
-  | le b => exact h
+/-- hypotheses of `wrap_preserves_values` on the initial value of a parameter: *any* value accepted
+by its constraint (this is what the constructor of the wrapped function's own `Parameter`
+enforces), and a finite interval wider than `2 tiny` (`3 tiny` when both bounds are open) -/
+def Admits (tiny : ℝ) (sh : Shape ℝ) (v : ℝ) : Prop := sh.Accepts v ∧ sh.Roomy tiny
+
+theorem admits_accepts {tiny : ℝ} {sh : Shape ℝ} {v : ℝ} (h : Admits tiny sh v) : sh.Accepts v := h.1
+
+theorem roomy_wide {tiny : ℝ} (ht : 0 < tiny) {sh : Shape ℝ} (h : sh.Roomy tiny) : sh.Wide tiny := by
+  cases sh <;> simp only [Shape.Roomy, Shape.Wide] at * <;> linarith
 
 theorem admits_wide {tiny : ℝ} (ht : 0 < tiny) {sh : Shape ℝ} {v : ℝ} (h : Admits tiny sh v) :
-    sh.Wide tiny := by
-  cases sh with
-  | none => trivial
-  | cc a b => have := h.2.2; show a < b; linarith
-  | oo a b => have := h.1; have := h.2; show a + tiny < b - tiny; linarith
-  | co a b => have := h.1; have := h.2.1; show a < b - tiny; linarith
-  | oc a b => have := h.1; have := h.2.1; show a + tiny < b; linarith
-  | gt a => trivial
-  | ge a => trivial
-  | lt b => trivial
-  | le b => trivial
-
-/-- the two corrections of `init_` -/
-noncomputable def nudgeLo (tiny a v : ℝ) : ℝ := if |v - a| < tiny then a + tiny else v
-noncomputable def nudgeHi (tiny b v : ℝ) : ℝ := if |v - b| < tiny then b - tiny else v
-
-theorem nudgeLo_close {tiny a v : ℝ} (ht : 0 < tiny) (h : a ≤ v) : |nudgeLo tiny a v - v| ≤ tiny := by
-  unfold nudgeLo; split_ifs with c
-  · rw [abs_le]; have := abs_lt.mp c; constructor <;> linarith
-  · simp [ht.le]
-theorem nudgeHi_close {tiny b v : ℝ} (ht : 0 < tiny) (h : v ≤ b) : |nudgeHi tiny b v - v| ≤ tiny := by
-  unfold nudgeHi; split_ifs with c
-  · rw [abs_le]; have := abs_lt.mp c; constructor <;> linarith
-  · simp [ht.le]
-theorem nudgeLo_gt {tiny a v : ℝ} (ht : 0 < tiny) (h : a ≤ v) : a < nudgeLo tiny a v := by
-  unfold nudgeLo; split_ifs with c
-  · linarith
-  · rcases le_or_gt tiny (v - a) with q | q
-    · linarith
-    · exfalso; apply c; rw [abs_lt]; constructor <;> linarith
-theorem nudgeLo_lt {tiny a v B : ℝ} (h1 : v < B) (h2 : a + tiny < B) : nudgeLo tiny a v < B := by
-  unfold nudgeLo; split_ifs <;> assumption
-theorem nudgeHi_lt {tiny b v : ℝ} (ht : 0 < tiny) (h : v ≤ b) : nudgeHi tiny b v < b := by
-  unfold nudgeHi; split_ifs with c
-  · linarith
-  · rcases le_or_gt tiny (b - v) with q | q
-    · linarith
-    · exfalso; apply c; rw [abs_lt]; constructor <;> linarith
-theorem nudgeHi_gt {tiny b v A : ℝ} (h1 : A < v) (h2 : A < b - tiny) : A < nudgeHi tiny b v := by
-  unfold nudgeHi; split_ifs <;> assumption
-
-/-- the value `init_` actually transforms: a value closer than `tiny` to a closed bound is moved
-`tiny` inside (for `[a,b]` the upper correction wins, as in the code) -/
-noncomputable def nudge (tiny : ℝ) : Shape ℝ → ℝ → ℝ
-  | .cc a b, v => if |v - b| < tiny then b - tiny else nudgeLo tiny a v
-  | .co a _, v => nudgeLo tiny a v
-  | .oc _ b, v => nudgeHi tiny b v
-  | .ge a, v => nudgeLo tiny a v
-  | .le b, v => nudgeHi tiny b v
-  | _, v => v
-
-theorem nudge_close {tiny : ℝ} (ht : 0 < tiny) {sh : Shape ℝ} {v : ℝ} (h : Admits tiny sh v) :
-    |nudge tiny sh v - v| ≤ tiny := by
-  cases sh with
-  | none => simp [nudge, ht.le]
-  | cc a b =>
-    show |(if |v - b| < tiny then b - tiny else nudgeLo tiny a v) - v| ≤ tiny
-    split_ifs with c
-    · rw [abs_le]; have := abs_lt.mp c; have := h.2.1; constructor <;> linarith
-    · exact nudgeLo_close ht h.1
-  | oo a b => simp [nudge, ht.le]
-  | co a b => exact nudgeLo_close ht h.1
-  | oc a b => exact nudgeHi_close ht h.2.1
-  | gt a => simp [nudge, ht.le]
-  | ge a => exact nudgeLo_close ht h
-  | lt b => simp [nudge, ht.le]
-  | le b => exact nudgeHi_close ht h
-
-/-- not closer than `tiny` to a closed bound: the value is transformed as it is -/
-def NotNudged (tiny : ℝ) : Shape ℝ → ℝ → Prop
-  | .cc a b, v => tiny ≤ |v - a| ∧ tiny ≤ |v - b|
-  | .co a _, v => tiny ≤ |v - a|
-  | .oc _ b, v => tiny ≤ |v - b|
-  | .ge a, v => tiny ≤ |v - a|
-  | .le b, v => tiny ≤ |v - b|
-  | _, _ => True
-
-theorem nudge_eq_self {tiny : ℝ} {sh : Shape ℝ} {v : ℝ} (h : NotNudged tiny sh v) : nudge tiny sh v = v := by
-  cases sh with
-  | none => rfl
-  | cc a b =>
-    show (if |v - b| < tiny then b - tiny else nudgeLo tiny a v) = v
-    rw [if_neg (not_lt.mpr h.2)]; unfold nudgeLo; rw [if_neg (not_lt.mpr h.1)]
-  | oo a b => rfl
-  | co a b => show nudgeLo tiny a v = v; unfold nudgeLo; rw [if_neg (not_lt.mpr h)]
-  | oc a b => show nudgeHi tiny b v = v; unfold nudgeHi; rw [if_neg (not_lt.mpr h)]
-  | gt a => rfl
-  | ge a => show nudgeLo tiny a v = v; unfold nudgeLo; rw [if_neg (not_lt.mpr h)]
-  | lt b => rfl
-  | le b => show nudgeHi tiny b v = v; unfold nudgeHi; rw [if_neg (not_lt.mpr h)]
+    sh.Wide tiny := roomy_wide ht h.2
 
 @[simp] theorem correctLower_real (tiny value a cv : ℝ) :
     correctLower tiny value a cv = if |value - a| < tiny then a + tiny else cv := by
@@ -256,6 +159,123 @@ theorem nudge_eq_self {tiny : ℝ} {sh : Shape ℝ} {v : ℝ} (h : NotNudged tin
 @[simp] theorem correctUpper_real (tiny value b cv : ℝ) :
     correctUpper tiny value b cv = if |value - b| < tiny then b - tiny else cv := by
   simp [correctUpper]
+@[simp] theorem correctLowerOpen_real (tiny value lo cv : ℝ) :
+    correctLowerOpen tiny value lo cv = if value - lo < tiny then lo + tiny else cv := by
+  simp [correctLowerOpen]
+@[simp] theorem correctUpperOpen_real (tiny value hi cv : ℝ) :
+    correctUpperOpen tiny value hi cv = if hi - value < tiny then hi - tiny else cv := by
+  simp [correctUpperOpen]
+
+/-- the open interval (corrected bounds) of the transformed parameter `init_` builds for a shape -/
+def Shape.Inner (tiny : ℝ) : Shape ℝ → ℝ → Prop
+  | .none, _ => True
+  | .cc a b, c => a < c ∧ c < b
+  | .oo a b, c => a + tiny < c ∧ c < b - tiny
+  | .co a b, c => a < c ∧ c < b - tiny
+  | .oc a b, c => a + tiny < c ∧ c < b
+  | .gt a, c => a + tiny < c
+  | .ge a, c => a < c
+  | .lt b, c => c < b - tiny
+  | .le b, c => c < b
+
+/-- not moved by `init_`: at least `tiny` away from each closed bound and `2 tiny` away from each
+open bound (i.e. `tiny` away from the corrected bound) -/
+def NotNudged (tiny : ℝ) : Shape ℝ → ℝ → Prop
+  | .none, _ => True
+  | .cc a b, v => tiny ≤ |v - a| ∧ tiny ≤ |v - b|
+  | .oo a b, v => a + 2 * tiny ≤ v ∧ v ≤ b - 2 * tiny
+  | .co a b, v => tiny ≤ |v - a| ∧ v ≤ b - 2 * tiny
+  | .oc a b, v => a + 2 * tiny ≤ v ∧ tiny ≤ |v - b|
+  | .gt a, v => a + 2 * tiny ≤ v
+  | .ge a, v => tiny ≤ |v - a|
+  | .lt b, v => v ≤ b - 2 * tiny
+  | .le b, v => tiny ≤ |v - b|
+
+/-- the driver's test `isNudged` is the negation of `NotNudged` -/
+theorem isNudged_false_iff (tiny : ℝ) (sh : Shape ℝ) (v : ℝ) :
+    isNudged tiny sh v = false ↔ NotNudged tiny sh v := by
+  cases sh <;> simp [isNudged, NotNudged]
+  all_goals first
+    | (constructor <;> intro h <;> linarith)
+    | (intro _; constructor <;> intro h <;> linarith)
+    | (constructor <;> rintro ⟨h1, h2⟩ <;> constructor <;> linarith)
+
+/-- the value `init_` transforms (`corrected`), for a value accepted by the constraint of a roomy
+interval: strictly inside the corrected bounds, and at most `2 tiny` away from the value -/
+theorem corrected_spec {tiny : ℝ} (ht : 0 < tiny) {sh : Shape ℝ} {v : ℝ} (h : Admits tiny sh v) :
+    sh.Inner tiny (corrected tiny sh v) ∧ |corrected tiny sh v - v| ≤ 2 * tiny := by
+  obtain ⟨ha, hr⟩ := h
+  cases sh with
+  | none => simp [corrected, Shape.Inner, ht.le]
+  | cc a b =>
+    obtain ⟨h1, h2⟩ := ha
+    have hr : 2 * tiny < b - a := hr
+    have ea : |v - a| = v - a := abs_of_nonneg (by linarith)
+    have eb : |v - b| = b - v := by rw [abs_sub_comm]; exact abs_of_nonneg (by linarith)
+    simp only [corrected, correctLower_real, correctUpper_real, ea, eb, Shape.Inner]
+    split_ifs <;> refine ⟨⟨?_, ?_⟩, ?_⟩ <;> (try rw [abs_le]) <;> (try constructor) <;> linarith
+  | oo a b =>
+    obtain ⟨h1, h2⟩ := ha
+    have hr : 3 * tiny < b - a := hr
+    simp only [corrected, correctLowerOpen_real, correctUpperOpen_real, Shape.Inner]
+    split_ifs <;> refine ⟨⟨?_, ?_⟩, ?_⟩ <;> (try rw [abs_le]) <;> (try constructor) <;> linarith
+  | co a b =>
+    obtain ⟨h1, h2⟩ := ha
+    have hr : 2 * tiny < b - a := hr
+    have ea : |v - a| = v - a := abs_of_nonneg (by linarith)
+    simp only [corrected, correctLower_real, correctUpperOpen_real, ea, Shape.Inner]
+    split_ifs <;> refine ⟨⟨?_, ?_⟩, ?_⟩ <;> (try rw [abs_le]) <;> (try constructor) <;> linarith
+  | oc a b =>
+    obtain ⟨h1, h2⟩ := ha
+    have hr : 2 * tiny < b - a := hr
+    have eb : |v - b| = b - v := by rw [abs_sub_comm]; exact abs_of_nonneg (by linarith)
+    simp only [corrected, correctLowerOpen_real, correctUpper_real, eb, Shape.Inner]
+    split_ifs <;> refine ⟨⟨?_, ?_⟩, ?_⟩ <;> (try rw [abs_le]) <;> (try constructor) <;> linarith
+  | gt a =>
+    have h1 : a < v := ha
+    simp only [corrected, correctLowerOpen_real, Shape.Inner]
+    split_ifs <;> refine ⟨?_, ?_⟩ <;> (try rw [abs_le]) <;> (try constructor) <;> linarith
+  | ge a =>
+    have h1 : a ≤ v := ha
+    have ea : |v - a| = v - a := abs_of_nonneg (by linarith)
+    simp only [corrected, correctLower_real, ea, Shape.Inner]
+    split_ifs <;> refine ⟨?_, ?_⟩ <;> (try rw [abs_le]) <;> (try constructor) <;> linarith
+  | lt b =>
+    have h1 : v < b := ha
+    simp only [corrected, correctUpperOpen_real, Shape.Inner]
+    split_ifs <;> refine ⟨?_, ?_⟩ <;> (try rw [abs_le]) <;> (try constructor) <;> linarith
+  | le b =>
+    have h1 : v ≤ b := ha
+    have eb : |v - b| = b - v := by rw [abs_sub_comm]; exact abs_of_nonneg (by linarith)
+    simp only [corrected, correctUpper_real, eb, Shape.Inner]
+    split_ifs <;> refine ⟨?_, ?_⟩ <;> (try rw [abs_le]) <;> (try constructor) <;> linarith
+
+theorem corrected_inner {tiny : ℝ} (ht : 0 < tiny) {sh : Shape ℝ} {v : ℝ} (h : Admits tiny sh v) :
+    sh.Inner tiny (corrected tiny sh v) := (corrected_spec ht h).1
+
+/-- `init_` moves a value by at most `2 tiny` (`tiny` inside the corrected bound) -/
+theorem corrected_close {tiny : ℝ} (ht : 0 < tiny) {sh : Shape ℝ} {v : ℝ} (h : Admits tiny sh v) :
+    |corrected tiny sh v - v| ≤ 2 * tiny := (corrected_spec ht h).2
+
+/-- ... and not at all when it is `tiny` away from every closed bound and `2 tiny` away from every
+open bound -/
+theorem corrected_eq_self {tiny : ℝ} {sh : Shape ℝ} {v : ℝ} (h : NotNudged tiny sh v) :
+    corrected tiny sh v = v := by
+  cases sh <;> simp only [NotNudged] at h <;>
+    simp only [corrected, correctLower_real, correctUpper_real, correctLowerOpen_real,
+      correctUpperOpen_real]
+  case cc a b => rw [if_neg (not_lt.mpr h.2), if_neg (not_lt.mpr h.1)]
+  case oo a b =>
+    rw [if_neg (show ¬ (b - tiny - v < tiny) by linarith [h.2]),
+      if_neg (show ¬ (v - (a + tiny) < tiny) by linarith [h.1])]
+  case co a b =>
+    rw [if_neg (show ¬ (b - tiny - v < tiny) by linarith [h.2]), if_neg (not_lt.mpr h.1)]
+  case oc a b =>
+    rw [if_neg (not_lt.mpr h.2), if_neg (show ¬ (v - (a + tiny) < tiny) by linarith [h.1])]
+  case gt a => rw [if_neg (show ¬ (v - (a + tiny) < tiny) by linarith)]
+  case ge a => rw [if_neg (not_lt.mpr h)]
+  case lt b => rw [if_neg (show ¬ (b - tiny - v < tiny) by linarith)]
+  case le b => rw [if_neg (not_lt.mpr h)]
 
 /-- the interval constructor followed by `getOriginalValue` (hyperbolic variant) -/
 theorem IT_new_getOriginal (pi cv lo hi : ℝ) (h1 : lo < cv) (h2 : cv < hi) :
@@ -276,76 +296,44 @@ theorem RT_new_getOriginal (v b : ℝ) (pos : Bool) (hv : if pos then b < v else
   obtain ⟨t', h1, h2, h3, h4, h5⟩ := this
   exact ⟨t', h1, h2, h4, h5, h3⟩
 
-theorem initOne_interval (pi tiny : ℝ) (sh : Shape ℝ) (cv lo hi v : ℝ)
-    (e : initOne pi tiny sh v = some (.i (IT.new pi cv lo hi 1 true)))
-    (hm : Matches tiny sh (.i (IT.new pi cv lo hi 1 true)))
-    (hn : nudge tiny sh v = cv) (h1 : lo < cv) (h2 : cv < hi) :
-    ∃ tp, initOne pi tiny sh v = some tp ∧ Matches tiny sh tp ∧ tp.getOriginal pi = nudge tiny sh v :=
-  ⟨_, e, hm, by rw [hn]; exact IT_new_getOriginal pi cv lo hi h1 h2⟩
-
-/-- `wrap_preserves_values`, one parameter: the transformed parameter `init_` builds is of the
-expected kind and back-transforms to the (nudged) initial value -/
+/-- `wrap_preserves_values`, one parameter: for every value accepted by the constraint the
+transformed parameter `init_` builds is of the expected kind and back-transforms to the
+(corrected) initial value; in particular its constructor does not raise -/
 theorem initOne_spec {pi tiny : ℝ} (ht : 0 < tiny) {sh : Shape ℝ} {v : ℝ} (h : Admits tiny sh v) :
-    ∃ tp, initOne pi tiny sh v = some tp ∧ Matches tiny sh tp ∧ tp.getOriginal pi = nudge tiny sh v := by
+    ∃ tp, initOne pi tiny sh v = some tp ∧ Matches tiny sh tp ∧
+      tp.getOriginal pi = corrected tiny sh v := by
+  have hin := corrected_inner ht h
+  generalize hc : corrected tiny sh v = cv at hin
   cases sh with
-  | none => exact ⟨_, rfl, trivial, by simp [TP.placebo, TP.getOriginal, nudge]⟩
+  | none => exact ⟨.p cv, by simp [initOne, hc, TP.placebo], trivial, rfl⟩
   | cc a b =>
-    obtain ⟨h1, h2, h3⟩ := h
-    have hn : nudge tiny (.cc a b) v = if |v - b| < tiny then b - tiny else nudgeLo tiny a v := rfl
-    apply initOne_interval pi tiny _ (nudge tiny (.cc a b) v) a b v
-    · simp [initOne, nudge, nudgeLo]
-    · simp [Matches, IT.new]
-    · rfl
-    · rw [hn]; split_ifs
-      · linarith
-      · exact nudgeLo_gt ht h1
-    · rw [hn]; split_ifs with c
-      · linarith
-      · apply nudgeLo_lt _ (by linarith)
-        rcases le_or_gt tiny (b - v) with q | q
-        · linarith
-        · exfalso; apply c; rw [abs_lt]; constructor <;> linarith
+    exact ⟨.i (IT.new pi cv a b 1 true), by simp [initOne, hc], by simp [Matches, IT.new],
+      IT_new_getOriginal pi cv a b hin.1 hin.2⟩
   | oo a b =>
-    apply initOne_interval pi tiny _ v (a + tiny) (b - tiny) v
-    · simp [initOne]
-    · simp [Matches, IT.new]
-    · rfl
-    · exact h.1
-    · exact h.2
+    exact ⟨.i (IT.new pi cv (a + tiny) (b - tiny) 1 true), by simp [initOne, hc], by simp [Matches, IT.new],
+      IT_new_getOriginal pi cv (a + tiny) (b - tiny) hin.1 hin.2⟩
   | co a b =>
-    obtain ⟨h1, h2, h3⟩ := h
-    apply initOne_interval pi tiny _ (nudgeLo tiny a v) a (b - tiny) v
-    · simp [initOne, nudgeLo]
-    · simp [Matches, IT.new]
-    · rfl
-    · exact nudgeLo_gt ht h1
-    · exact nudgeLo_lt h2 (by linarith)
+    exact ⟨.i (IT.new pi cv a (b - tiny) 1 true), by simp [initOne, hc], by simp [Matches, IT.new],
+      IT_new_getOriginal pi cv a (b - tiny) hin.1 hin.2⟩
   | oc a b =>
-    obtain ⟨h1, h2, h3⟩ := h
-    apply initOne_interval pi tiny _ (nudgeHi tiny b v) (a + tiny) b v
-    · simp [initOne, nudgeHi]
-    · simp [Matches, IT.new]
-    · rfl
-    · exact nudgeHi_gt h1 (by linarith)
-    · exact nudgeHi_lt ht h2
+    exact ⟨.i (IT.new pi cv (a + tiny) b 1 true), by simp [initOne, hc], by simp [Matches, IT.new],
+      IT_new_getOriginal pi cv (a + tiny) b hin.1 hin.2⟩
   | gt a =>
-    have h' : a + tiny < v := h
-    obtain ⟨t, e, g, hb, hp, hs⟩ := RT_new_getOriginal v (a + tiny) true (by simpa using h')
-    exact ⟨.r t, by simp [initOne, e], ⟨hb, hp, hs⟩, by simpa [TP.getOriginal, nudge] using g⟩
+    have h' : a + tiny < cv := hin
+    obtain ⟨t, e, g, hb, hp, hs⟩ := RT_new_getOriginal cv (a + tiny) true (by simpa using h')
+    exact ⟨.r t, by simp [initOne, hc, e], ⟨hb, hp, hs⟩, by simpa [TP.getOriginal] using g⟩
   | ge a =>
-    have h' : a ≤ v := h
-    obtain ⟨t, e, g, hb, hp, hs⟩ := RT_new_getOriginal (nudgeLo tiny a v) a true (by simpa using nudgeLo_gt ht h')
-    unfold nudgeLo at e g
-    exact ⟨.r t, by simp [initOne, e], ⟨hb, hp, hs⟩, by simpa [TP.getOriginal, nudge, nudgeLo] using g⟩
+    have h' : a < cv := hin
+    obtain ⟨t, e, g, hb, hp, hs⟩ := RT_new_getOriginal cv a true (by simpa using h')
+    exact ⟨.r t, by simp [initOne, hc, e], ⟨hb, hp, hs⟩, by simpa [TP.getOriginal] using g⟩
   | lt b =>
-    have h' : v < b - tiny := h
-    obtain ⟨t, e, g, hb, hp, hs⟩ := RT_new_getOriginal v (b - tiny) false (by simpa using h')
-    exact ⟨.r t, by simp [initOne, e], ⟨hb, hp, hs⟩, by simpa [TP.getOriginal, nudge] using g⟩
+    have h' : cv < b - tiny := hin
+    obtain ⟨t, e, g, hb, hp, hs⟩ := RT_new_getOriginal cv (b - tiny) false (by simpa using h')
+    exact ⟨.r t, by simp [initOne, hc, e], ⟨hb, hp, hs⟩, by simpa [TP.getOriginal] using g⟩
   | le b =>
-    have h' : v ≤ b := h
-    obtain ⟨t, e, g, hb, hp, hs⟩ := RT_new_getOriginal (nudgeHi tiny b v) b false (by simpa using nudgeHi_lt ht h')
-    unfold nudgeHi at e g
-    exact ⟨.r t, by simp [initOne, e], ⟨hb, hp, hs⟩, by simpa [TP.getOriginal, nudge, nudgeHi] using g⟩
+    have h' : cv < b := hin
+    obtain ⟨t, e, g, hb, hp, hs⟩ := RT_new_getOriginal cv b false (by simpa using h')
+    exact ⟨.r t, by simp [initOne, hc, e], ⟨hb, hp, hs⟩, by simpa [TP.getOriginal] using g⟩
 
 /-- `1e-9`, the distance from a bound down to which the property quantifies -/
 noncomputable def margin : ℝ := 1 / 10 ^ 9
@@ -369,44 +357,52 @@ theorem libTINY_lt_margin : (libTINY : ℝ) < margin := by
   simp only [libTINY, Generated.TransformConstants.TINY, ofRat_eq, margin]
   norm_num
 
+/-- ... with room for the two steps of `TINY()` an open bound and the value next to it are moved by -/
+theorem two_libTINY_lt_margin : 2 * (libTINY : ℝ) < margin := by
+  simp only [libTINY, Generated.TransformConstants.TINY, ofRat_eq, margin]
+  norm_num
+
 theorem margin_admits {sh : Shape ℝ} {v : ℝ} (h : Margin sh v) :
     Admits libTINY sh v ∧ NotNudged libTINY sh v := by
   have h0 := libTINY_pos
-  have h1 := libTINY_lt_margin
+  have h1 := two_libTINY_lt_margin
   have e : (margin : ℝ) = 1 / 1000000000 := by unfold margin; norm_num
   rw [e] at h1
   cases sh with
-  | none => exact ⟨trivial, trivial⟩
+  | none => exact ⟨⟨trivial, trivial⟩, trivial⟩
   | cc a b =>
     obtain ⟨p, q⟩ := h; rw [e] at p q
-    refine ⟨⟨by linarith, by linarith, by linarith⟩, ?_, ?_⟩
+    refine ⟨⟨⟨by linarith, by linarith⟩, by show 2 * libTINY < b - a; linarith⟩, ?_, ?_⟩
     · exact le_trans (by linarith) (le_abs_self (v - a))
     · exact le_trans (by linarith) (neg_le_abs (v - b))
   | oo a b =>
     obtain ⟨p, q⟩ := h; rw [e] at p q
-    exact ⟨⟨by linarith, by linarith⟩, trivial⟩
+    exact ⟨⟨⟨by linarith, by linarith⟩, by show 3 * libTINY < b - a; linarith⟩,
+      by constructor <;> linarith⟩
   | co a b =>
     obtain ⟨p, q⟩ := h; rw [e] at p q
-    exact ⟨⟨by linarith, by linarith, by linarith⟩, le_trans (by linarith) (le_abs_self (v - a))⟩
+    exact ⟨⟨⟨by linarith, by linarith⟩, by show 2 * libTINY < b - a; linarith⟩,
+      le_trans (by linarith) (le_abs_self (v - a)), by linarith⟩
   | oc a b =>
     obtain ⟨p, q⟩ := h; rw [e] at p q
-    exact ⟨⟨by linarith, by linarith, by linarith⟩, le_trans (by linarith) (neg_le_abs (v - b))⟩
+    exact ⟨⟨⟨by linarith, by linarith⟩, by show 2 * libTINY < b - a; linarith⟩,
+      by linarith, le_trans (by linarith) (neg_le_abs (v - b))⟩
   | gt a =>
     have p : a + margin ≤ v := h
     rw [e] at p
-    exact ⟨by show a + libTINY < v; linarith, trivial⟩
+    exact ⟨⟨by show a < v; linarith, trivial⟩, by show a + 2 * libTINY ≤ v; linarith⟩
   | ge a =>
     have p : a + margin ≤ v := h
     rw [e] at p
-    exact ⟨by show a ≤ v; linarith, le_trans (by linarith) (le_abs_self (v - a))⟩
+    exact ⟨⟨by show a ≤ v; linarith, trivial⟩, le_trans (by linarith) (le_abs_self (v - a))⟩
   | lt b =>
     have p : v ≤ b - margin := h
     rw [e] at p
-    exact ⟨by show v < b - libTINY; linarith, trivial⟩
+    exact ⟨⟨by show v < b; linarith, trivial⟩, by show v ≤ b - 2 * libTINY; linarith⟩
   | le b =>
     have p : v ≤ b - margin := h
     rw [e] at p
-    exact ⟨by show v ≤ b; linarith, le_trans (by linarith) (neg_le_abs (v - b))⟩
+    exact ⟨⟨by show v ≤ b; linarith, trivial⟩, le_trans (by linarith) (neg_le_abs (v - b))⟩
 
 /-! ### lists of slots: `init`, `fireParameterChanged`, `setParameters` -/
 
@@ -435,7 +431,7 @@ def Sync (pi : ℝ) (s : Slot ℝ) : Prop := s.fn = s.tp.getOriginal pi ∧ s.fp
 /-- what `init` builds for one parameter -/
 def InitRel (pi tiny : ℝ) (p : Shape ℝ × ℝ) (s : Slot ℝ) : Prop :=
   s.shape = p.1 ∧ s.fp = p.2 ∧ s.fn = p.2 ∧ Matches tiny p.1 s.tp ∧
-    s.tp.getOriginal pi = nudge tiny p.1 p.2
+    s.tp.getOriginal pi = corrected tiny p.1 p.2
 
 theorem init_spec {pi tiny : ℝ} (ht : 0 < tiny) :
     ∀ (ps : List (Shape ℝ × ℝ)), (∀ p ∈ ps, Admits tiny p.1 p.2) →
@@ -647,6 +643,94 @@ theorem sync_zipWith (pi : ℝ) (ch : Bool) :
       rcases hs' with rfl | hs'
       · exact setSlot_sync ch s u (hw s (by simp)) (fun h => (hch' h).1)
       · exact ih upd (fun x hx => hw x (by simp [hx])) (fun h => (hch' h).2) s' hs'
+
+/-- the two coordinate systems agree on a slot up to `d`: the wrapped function's value is within
+`d` of the back-transformed coordinate, and the wrapper's copy holds one of the two.  (`d = 0`
+with `fp = fn` is `Sync`; after a construction that moved a value, `d = 2 tiny`.) -/
+def Near (pi d : ℝ) (s : Slot ℝ) : Prop :=
+  |s.fn - s.tp.getOriginal pi| ≤ d ∧ (s.fp = s.fn ∨ s.fp = s.tp.getOriginal pi)
+
+theorem sync_near {pi d : ℝ} (hd : 0 ≤ d) {s : Slot ℝ} (h : Sync pi s) : Near pi d s := by
+  obtain ⟨h1, h2⟩ := h
+  exact ⟨by rw [h1]; simpa using hd, Or.inl h2⟩
+
+theorem setSlot_near {pi d : ℝ} (hd : 0 ≤ d) (ch : Bool) (s : Slot ℝ) (u : Option ℝ)
+    (hs : Near pi d s) (hch : ch = false → changed s u = false) : Near pi d (setSlot pi ch s u) := by
+  obtain ⟨h1, h2⟩ := hs
+  cases u with
+  | none =>
+    cases ch
+    · exact ⟨by simpa [setSlot] using h1, by simpa [setSlot] using h2⟩
+    · exact ⟨by simpa [setSlot] using h1, by simp [setSlot]⟩
+  | some v =>
+    cases ch
+    · have hc := hch rfl
+      have hx : s.tp.x = v := by
+        by_contra hne
+        have : changed s (some v) = true := by simp [changed, hne]
+        rw [hc] at this; exact Bool.false_ne_true this
+      simp only [setSlot, Near, Bool.false_eq_true, if_false]
+      rw [← hx, setX_self]
+      refine ⟨?_, Or.inl trivial⟩
+      rcases h2 with e | e
+      · rw [e]; exact h1
+      · rw [e]; simpa using hd
+    · simp only [setSlot, Near, if_true]
+      exact ⟨by simpa using hd, Or.inl trivial⟩
+
+theorem forall₂_zipWith_right {A B C : Type} {R : A → B → Prop} {g : B → C → B} {Q : B → C → Prop}
+    (h : ∀ a b c, Q b c → R a b → R a (g b c)) :
+    ∀ {l : List A} {m : List B}, List.Forall₂ R l m → ∀ (n : List C), n.length = m.length →
+      (∀ p ∈ List.zip m n, Q p.1 p.2) → List.Forall₂ R l (List.zipWith g m n) := by
+  intro l m hr
+  induction hr with
+  | nil => intro n _ _; simp
+  | cons hab _ ih =>
+    intro n hn hq
+    cases n with
+    | nil => simp at hn
+    | cons c n =>
+      simp only [List.zipWith_cons_cons]
+      exact List.Forall₂.cons (h _ _ c (hq (_, c) (by simp)) hab)
+        (ih n (by simpa using hn) (fun p hp => hq p (by simp [hp])))
+
+theorem forall₂_imp_right {A B : Type} {R S : A → B → Prop} (h : ∀ a b, R a b → S a b) :
+    ∀ {l : List A} {m : List B}, List.Forall₂ R l m → List.Forall₂ S l m := by
+  intro l m hr
+  induction hr with
+  | nil => exact List.Forall₂.nil
+  | cons hab _ ih => exact List.Forall₂.cons (h _ _ hab) ih
+
+/-- if no named coordinate changes (`any changed = false`), none does -/
+theorem changed_of_any_false :
+    ∀ (w : W ℝ) (upd : List (Option ℝ)), (List.zipWith changed w upd).any id = false →
+      ∀ p ∈ List.zip w upd, changed p.1 p.2 = false := by
+  intro w
+  induction w with
+  | nil => intro upd _ p hp; simp at hp
+  | cons s w ih =>
+    intro upd h p hp
+    cases upd with
+    | nil => simp at hp
+    | cons u upd =>
+      simp only [List.zipWith_cons_cons, List.any_cons, id, Bool.or_eq_false_iff] at h
+      simp only [List.zip_cons_cons, List.mem_cons] at hp
+      rcases hp with rfl | hp
+      · exact h.1
+      · exact ih upd h.2 p hp
+
+/-- what is known of the slot of a parameter with constraint `p.1` and initial value `p.2` at any
+time after the construction: the invariant, the two coordinate systems within `2 tiny` of each other,
+and exactly equal when `init_` did not move the initial value -/
+def Tracks (pi tiny : ℝ) (p : Shape ℝ × ℝ) (s : Slot ℝ) : Prop :=
+  s.shape = p.1 ∧ SlotInv tiny s ∧ Near pi (2 * tiny) s ∧ (NotNudged tiny p.1 p.2 → Sync pi s)
+
+theorem setSlot_tracks {pi tiny : ℝ} (ht : 0 < tiny) (ch : Bool) (p : Shape ℝ × ℝ) (s : Slot ℝ)
+    (u : Option ℝ) (hch : ch = false → changed s u = false) (h : Tracks pi tiny p s) :
+    Tracks pi tiny p (setSlot pi ch s u) := by
+  obtain ⟨h1, h2, h3, h4⟩ := h
+  exact ⟨by simpa [setSlot] using h1, setSlot_inv ht ch s u h2,
+    setSlot_near (by linarith) ch s u h3 hch, fun hn => setSlot_sync ch s u (h4 hn) hch⟩
 
 theorem forall₂_map_eq {A B C : Type} {R : A → B → Prop} {f : A → C} {g : B → C}
     (h : ∀ a b, R a b → f a = g b) :
